@@ -21,7 +21,7 @@ RULE = ("Hypothesis generates noisy determined networks with every cluster type 
 ASSUMPTIONS = ["'approximate coordinates updated from the adjustment' is read as: exported coordinates of adjusted points equal the "
                "final linearisation point of the run (the <approximate> block of the same run's XML, printed with 6 decimals)",
                "values are compared after unit conversion (d-m-s <-> gon; arc seconds <-> cc) with 1e-9 relative tolerance"]
-REQUIRED_CLASSES = ["with_dh", "with_extern", "with_dist", "with_cov_band", "deg_input", "round3", "export_alone"]
+REQUIRED_CLASSES = ["with_dh", "with_extern", "with_dist", "with_cov_band", "deg_input", "round3", "export_alone", "with_dist_and_stdev"]
 
 
 @st.composite
@@ -49,6 +49,9 @@ def case(draw):
                 if r == 0:
                     o["dist"] = draw(st.integers(1, 400)) / 100.0      # km; stdev = sigma-apr*sqrt(dist)
                     o["sd"] = None
+                if r == 1:
+                    o["dist"] = draw(st.integers(1, 400)) / 100.0      # both given: the explicit stdev is the one in use
+                    o["both"] = True
                 if draw(st.integers(0, 7)) == 0:
                     o["extern"] = "lev-" + str(draw(st.integers(1, 99)))
     mode = draw(st.sampled_from(["exact", "small", "omit"]))
@@ -303,6 +306,8 @@ def oracle(c, stats):
         feats.append("with_extern")
     if any(o.get("dist") for cl in net["clusters"] if cl["k"] == "hdiff" for o in cl["obs"]):
         feats.append("with_dist")
+    if any(o.get("both") for cl in net["clusters"] if cl["k"] == "hdiff" for o in cl["obs"]):
+        feats.append("with_dist_and_stdev")
     if any(cl.get("cov") and cl["cov"]["band"] > 0 for cl in net["clusters"]):
         feats.append("with_cov_band")
     if net.get("deg"):
@@ -320,6 +325,10 @@ def oracle(c, stats):
     if any(p["id"] not in present for p in net["points"] if p["xy"] or p["z"]):
         # a point was removed from the adjustment (weak configuration): exclusions are the subject of C14 / C20
         stats.label("skipped_point_removed")
+        return []
+    if x0["summary"]["iterations"] >= 5:
+        # the iteration limit was reached: the run did not converge (weak geometry), the export is not a fixed point yet
+        stats.label("skipped_iteration_limit")
         return []
     fails = []
     try:
